@@ -9,6 +9,7 @@ import (
 	"github.com/elastic/go-structform/gotype"
 
 	"verif/mc/engine"
+	"verif/mc/gen"
 	"verif/mc/model"
 )
 
@@ -44,7 +45,7 @@ func c11Body(x *engine.Exec, c *GoCase) {
 	if !c.V.IsValid() || (c.T.Kind() == reflect.Interface && c.V.IsNil() && c.Fam == "seeds") {
 		return
 	}
-	if noRoundTrip[c.Class] {
+	if noRoundTrip[c.Class] || gen.HasCustomFolder(c.T) {
 		return // custom folders emit their own shape: not a round-trippable type (C12 covers them)
 	}
 	entry := "gotype.Fold+Unfold(" + routeNames[route] + ")"
